@@ -15,10 +15,10 @@ Proof. intros. unfold wsum. rewrite map_app, sumZ_app. reflexivity. Qed.
 Lemma combine_conserves : forall ps q, combine ps = MOk q -> forall k j, eq64 (wt q k j) (wsum ps k j).
 Proof.
   intros ps q H k j. unfold combine in H. destruct ps as [|p [|p2 r]].
-  - cbn in H. discriminate.
-  - inversion H; subst. unfold wsum. cbn [map]. rewrite sumZ_cons. cbn [sumZ fold_right].
+  - discriminate.
+  - destruct (negb (types_combinable p)); [discriminate|]. inversion H; subst. unfold wsum. cbn [map]. rewrite sumZ_cons. cbn [sumZ fold_right].
     rewrite Z.add_0_r. apply eq64_refl.
-  - exact (merge_conserves_lemma _ _ H k j).
+  - destruct (negb (types_combinable p)); [discriminate|]. exact (merge_conserves_lemma _ _ H k j).
 Qed.
 
 Lemma successes_app : forall a b, successes (a ++ b) = successes a ++ successes b.
@@ -154,3 +154,9 @@ Proof.
   destruct (String.eqb_spec name "showcolumns"); [contradiction|].
   destruct (String.eqb_spec name "divide_by"); [contradiction|]. split; reflexivity.
 Qed.
+
+(* at the default options proto / raw / download write the fetched profile itself: every weight
+   exactly as merged, whatever its magnitude (no pass through floating point at ratio 1) *)
+Theorem written_default_exact_lemma : forall f,
+  written_proto gcfg0 f = f /\ written_raw gcfg0 f = f /\ written_download f = f.
+Proof. intros f. repeat split. Qed.
